@@ -30,7 +30,7 @@ def apply(dst, m):
         p = os.path.join(dst, e["file"])
         s = open(p).read()
         if s.count(e["old"]) != e.get("count", 1):
-            raise SystemExit("mutant %s: pattern occurs %d times in %s" % (m["id"], s.count(e["old"]), e["file"]))
+            raise ValueError("mutant %s: pattern occurs %d times in %s" % (m["id"], s.count(e["old"]), e["file"]))
         s = s.replace(e["old"], e["new"])
         open(p, "w").write(s)
 
@@ -63,7 +63,12 @@ def main():
             continue
         d, dst = make_copy()
         try:
-            apply(dst, m)
+            try:
+                apply(dst, m)
+            except ValueError as e:
+                print("%-44s **STALE PATTERN** %s" % (m["id"], e), flush=True)
+                results.append((m["id"], "-", False, -1, "-", []))
+                continue
             tline = run_tests(dst) if tests else "-"
             props = m["props"] if "props" in m else [m["prop"]]
             for prop in props:
